@@ -41,11 +41,7 @@ func Dump(v reflect.Value) any {
 	case reflect.Int8, reflect.Int16, reflect.Int32, reflect.Int64, reflect.Int:
 		return strconv.FormatInt(v.Int(), 10)
 	case reflect.String:
-		s := v.String()
-		if utf8.ValidString(s) {
-			return s
-		}
-		return map[string]any{"hex": hex.EncodeToString([]byte(s))}
+		return dumpString(v.String())
 	case reflect.Array:
 		if t.Elem().Kind() == reflect.Uint8 {
 			b := make([]byte, v.Len())
@@ -88,7 +84,7 @@ func Dump(v reflect.Value) any {
 			return nil
 		}
 		if t == tError {
-			return map[string]any{"error": v.Interface().(error).Error()}
+			return map[string]any{"error": dumpString(v.Interface().(error).Error())}
 		}
 		e := v.Elem()
 		name := e.Type().String()
@@ -136,7 +132,11 @@ func load(v reflect.Value, tree any, path string) error {
 		if err != nil {
 			return bad()
 		}
-		v.Set(reflect.ValueOf(time.Unix(sec, 0)).Convert(t))
+		tm := time.Unix(sec, 0)
+		if sec == (time.Time{}).Unix() {
+			tm = time.Time{} // the zero time (unused timestamp slots) keeps its exact representation
+		}
+		v.Set(reflect.ValueOf(tm).Convert(t))
 		return nil
 	case tWork:
 		s, ok := str()
@@ -178,19 +178,11 @@ func load(v reflect.Value, tree any, path string) error {
 		}
 		v.SetInt(i)
 	case reflect.String:
-		switch x := tree.(type) {
-		case string:
-			v.SetString(x)
-		case map[string]any:
-			h, _ := x["hex"].(string)
-			b, err := hex.DecodeString(h)
-			if err != nil {
-				return bad()
-			}
-			v.SetString(string(b))
-		default:
+		x, ok := loadString(tree)
+		if !ok {
 			return bad()
 		}
+		v.SetString(x)
 	case reflect.Array:
 		if t.Elem().Kind() == reflect.Uint8 {
 			s, ok := str()
@@ -279,7 +271,10 @@ func load(v reflect.Value, tree any, path string) error {
 			return bad()
 		}
 		if t == tError {
-			msg, _ := m["error"].(string)
+			msg, ok := loadString(m["error"])
+			if !ok {
+				return bad()
+			}
 			v.Set(reflect.ValueOf(errors.New(msg)))
 			return nil
 		}
@@ -308,4 +303,23 @@ func load(v reflect.Value, tree any, path string) error {
 		return bad()
 	}
 	return nil
+}
+
+func dumpString(s string) any {
+	if utf8.ValidString(s) {
+		return s
+	}
+	return map[string]any{"hex": hex.EncodeToString([]byte(s))}
+}
+
+func loadString(tree any) (string, bool) {
+	switch x := tree.(type) {
+	case string:
+		return x, true
+	case map[string]any:
+		h, _ := x["hex"].(string)
+		b, err := hex.DecodeString(h)
+		return string(b), err == nil
+	}
+	return "", false
 }
